@@ -25,6 +25,18 @@ CHECKS = {
    text="For lists of rationals the returned basis is checked by three LIA queries over UNBOUNDED integer vectors (soundness of every integer combination, independence, completeness with one universal block) against the fundamental theorem of arithmetic; algebraic lists by exact NRA identities and completeness over a stated box.",
    ref="DESIGN.md 3/C16", tech="z3 LIA with one forall block (unbounded exponent vectors); QF_NRA identities for algebraic bases",
    note="Trusted: own trial-division factorisation, z3. Bounded: lists of length <= 3/4 over +-2^a3^b5^c and a stated algebraic alphabet; algebraic completeness only inside |e_i| <= 3/5."),
+ "C02": dict(cat="translation_validation",
+   text="The real normalize_program runs with every Transformer.execute observed; each changed pass (and source text vs parsed program, source vs final program) is compared by one z3 query per test function: expectation of one iteration from an arbitrary symbolic pre-state (auxiliaries unconstrained, so information carried across iterations is visible) and of the initial block, for all parameters. A single query covers all pre-states and hence all iteration counts.",
+   ref="DESIGN.md 3/C02", tech="per-pass equivalence of one-iteration expectations from a symbolic pre-state, decided by z3 (QF_NRA) over a forking reference interpreter of both programs",
+   note="Trusted: vlib/sem.py, vlib/distref.py, z3. Laws are compared through moments up to degree 2/3 over the source variables; typed variables assumed in their Polar types (C05); trivial_guard, Bernoulli abstraction of non-finite conditions, functional assignments and TruncNormal are outside."),
+ "C03": dict(cat="other",
+   text="For every monomial of every recurrence system the real RecBuilder produces on the program family, one z3 query decides E[M(post) | arbitrary typed pre-state] = recorded right-hand side for all pre-states and parameters (so for every reachable state and every n); initial values, closure, matrix rows, indicator polynomials and power reductions are separate queries.",
+   ref="DESIGN.md 3/C03", tech="one-step symbolic pre-state identity queries (z3 QF_NRA) against the reference interpreter run on the normalised program",
+   note="Trusted: vlib/sem.py, vlib/distref.py, z3. Assumes the finite types are sound (C05). A sat pre-state counts only if reached from the initial block within 6 iterations. Functional assignments (C13) and TruncNormal are outside."),
+ "C05": dict(cat="other",
+   text="The inferred types are shown to be an inductive invariant of the normalised program: for each typed variable and each path of one iteration from an arbitrary typed pre-state, 'value outside the type' is unsatisfiable; bounded exploration from the initial block (under normalised and source semantics) decides whether a non-inductive type set is actually violated. Several fixed-point budgets are exercised.",
+   ref="DESIGN.md 3/C05", tech="inductive-step queries from a symbolic typed pre-state + bounded model checking from the initial block (z3)",
+   note="Trusted: vlib/sem.py, z3. User-declared types are assumptions. An undefined initial value of a never-initialised auxiliary is not counted as a value it takes. Non-inductive but unreached within K iterations is reported inconclusive."),
 }
 NA_REASON = "check not built yet in this session (see DESIGN.md section 3 for the planned solver-based check)"
 
